@@ -30,7 +30,8 @@ OBLIGATIONS = {"batch:exhaustive": 100, "batch:random-large": 20,
                "batch:reject": 50, "sitebatch": 20, "opm:product": 50,
                "opm:roundtrip": 50, "opm:roundtrip-renamed": 10,
                "opm:find": 50, "opm:bare-scalar": 5, "opm:prefix-values": 5,
-               "opm:rebuilt-manager": 20, "batch:caller-modifies-result": 20}
+               "opm:rebuilt-manager": 20, "batch:caller-modifies-result": 20,
+               "opm:find-multi": 50, "opm:find-multi-equal-values": 5}
 
 
 def _hy():
@@ -271,6 +272,29 @@ def run_opm_case(ctx, case):
             ctx.check("opm.find", r == want, "OptionManager|find", case,
                       {"key": k, "value": v, "got": r if isinstance(r, str) else r[:20],
                        "want": want[:20]})
+    # several criteria at once (all the options of a task; pairs of options), also
+    # when two options ask for values with the same text
+    for tid in range(min(opm.ntasks, 6)):
+        t = opm.get_task(tid)
+        crit = {k: t[k] for k in keys}
+        subsets = [crit] + [{a: crit[a], b: crit[b]} for a, b in
+                            itertools.combinations(keys, 2)][:6]
+        for cr in subsets:
+            if len(cr) < 2:
+                continue
+            ctx.tag("opm:find-multi")
+            if len(set(str(v) for v in cr.values())) < len(cr):
+                ctx.tag("opm:find-multi-equal-values")
+            want = [i for i, tt in enumerate(opm.tasks)
+                    if all(tt[k] == v for k, v in cr.items())]
+            try:
+                r = opm.find(**cr)
+            except Exception as e:
+                r = repr(e)
+            ctx.api("find")
+            ctx.check("opm.find-multi", r == want, "OptionManager|find|several-criteria",
+                      case, {"criteria": {k: repr(v) for k, v in cr.items()},
+                             "got": r if isinstance(r, str) else r[:20], "want": want[:20]})
     # a value that is absent from the option must find nothing
     for k, lst in zip(keys, lists):
         absent = 987654 if isinstance(lst[0], (int, float)) else "zzz_absent"
